@@ -134,6 +134,10 @@ func (r *RibEntry) updateNexthopsEnc() {
 					routes = append(routes, route)
 				}
 			}
+			// Inheritance stops at (and includes) the nearest parent with a capture route
+			if entry != r && entry.HasCaptureRoute() {
+				break
+			}
 		}
 	}
 
